@@ -679,6 +679,33 @@ func NAME(a int, b int) (res int) {
 	}
 	out = append(out, mk("multi-latch/other-back-edge-value", SigXI, []string{"multi-latch", "loop-continue"}, ml("100"), ml("101")))
 	out = append(out, mk("multi-latch/other-back-edge-param", SigXI, []string{"multi-latch", "loop-continue"}, ml("n + 50"), ml("n + 60")))
+	// float constants that agree to six significant digits (a %.6g rendering merges them)
+	fcl := func(k string) string {
+		return `func NAME(x float64, y float64) (res int) {
+	v := x*` + k + ` + y
+	if v > 1.5 {
+		res = 1
+	}
+	return res + int(v*100000000)
+}
+`
+	}
+	out = append(out, mk("float-const-close/large", SigFF, []string{"float-const"}, fcl("1000001.0"), fcl("1000002.0")))
+	out = append(out, mk("float-const-close/fraction", SigFF, []string{"float-const"}, fcl("0.30000001"), fcl("0.30000002")))
+	// a small constant whose type is a named integer type
+	nic := func(k, lim string) string {
+		return `func NAME(a int, b int) (res int) {
+	l := Level(a & 7)
+	l = l + ` + k + `
+	if l > ` + lim + ` {
+		res = 10
+	}
+	return res + int(l) + b
+}
+`
+	}
+	out = append(out, mk("small-const/named-int-operand", SigII, []string{"named-type"}, nic("1", "3"), nic("2", "3")))
+	out = append(out, mk("small-const/named-int-compare", SigII, []string{"named-type"}, nic("1", "3"), nic("1", "4")))
 	gc := func(e string) string {
 		return `func catNAME[T ~string | ~int](x T, y T) T {
 	return ` + e + `
